@@ -22,6 +22,7 @@ import json
 import os
 import random
 
+import h5py
 import nixio
 
 from ..extract import delshape as _ex
@@ -32,33 +33,30 @@ from ..lib.storeimpl import Impl, BadOp
 PROP = "C04"
 LEAN_MODULE = "NixModel.Props.C04"
 THEOREMS = [
-    "Nix.C04.deleteAll_gone",
-    "Nix.C04.deleteAll_frame",
-    "Nix.C04.deleteAll_order",
-    "Nix.C04.deleteAll_untouched",
-    "Nix.C04.delete_is_deleteAll",
+    "Nix.C04.deleteObjs_gone",
+    "Nix.C04.deleteObjs_frame",
+    "Nix.C04.deleteObjs_order",
+    "Nix.C04.deleteObjs_untouched",
+    "Nix.C04.delete_is_deleteObjs",
     "Nix.C04.delete_refused",
-    "Nix.C04.delete_ids_self",
+    "Nix.C04.delete_keys_self",
     "Nix.C04.subtree_complete",
     "Nix.C04.subtree_complete_of_done",
+    "Nix.C04.subtree_sound",
     "Nix.C04.delete_gone",
     "Nix.C04.delete_owned_unreachable",
     "Nix.C04.delete_others_stay",
-    "Nix.C04.frame_partial",
-    "Nix.C04.frame_counterexample",
+    "Nix.C04.frame_full",
+    "Nix.C04.delete_frame",
+    "Nix.C04.delete_exact",
+    "Nix.C04.frame_counterexample_before_fix",
     "Nix.C04.unlink_keeps_target",
     "Nix.C04.role_clear_keeps_target",
     "Nix.C04.history_delete",
     "Nix.C04.history_frame",
     "Nix.C04.history_delete_exact",
-    "Nix.C04.frame_of_noSharedIds",
-    "Nix.C04.frame_iff_noSharedLinkedIds",
-    "Nix.C04.noSharedIds_init",
-    "Nix.C04.noSharedIds_step",
-    "Nix.C04.noSharedIds_of_reachable",
-    "Nix.C04.frame_of_reachable",
     "Nix.C04.delitem_follows_source",
-    "Nix.C04.deleteAll_follows_source",
+    "Nix.C04.deleteObjs_follows_source",
     "Nix.C04.h5Delete_follows_source",
     "Nix.C04.containerInfo_follows_source",
     "Nix.C04.containerInfo_only_source",
@@ -73,28 +71,32 @@ ASSUMPTIONS = [
     "every reference nixio keeps to an entity is an HDF5 hard link (owning container entry, link-list entry, role "
     "link); h5py's visititems reaches every group reachable from '/' (modelled: delete_all filters every link list)",
     "subtree_complete: the section / source hierarchy below the deleted entity is a finite forest of at most "
-    "|nodes|^2+1 entities (the breadth-first id collection of the model is fuel-based; API-built files satisfy it); "
+    "|nodes|^2+1 entities (the breadth-first collection of the model is fuel-based; API-built files satisfy it); "
     "subtree_complete_of_done replaces it by the decidable 'the collection ended with an empty queue', which the "
     "model driver evaluates (op fuel_ok) before every section / source deletion of the correspondence runs",
-    "frame at full strength (only links to the deleted object disappear) holds only when no other object shares the "
-    "entity_id: false after an id-keeping copy (open finding C04-delete-hits-same-id-copy; frame_partial + "
-    "frame_counterexample); proved at full strength for every history of the model's Op language (which has no "
-    "copy) under the uuid4-freshness proviso of Lemmas/StoreWF (a new entity is never named with an id still to be "
-    "drawn): history_frame, history_delete_exact",
+    "deletion is by HDF5 object (fix 'deleting an entity also deleted every same-id copy file-wide'): h5py's `==` / "
+    "`in` on Group / Dataset objects is object identity in the file (same file number and address) - modelled as "
+    "equality of node keys; the frame at full strength (frame_full, delete_frame, delete_exact) is proved for "
+    "every graph, whatever ids its objects carry; frame_counterexample_before_fix is a statement about "
+    "Graph.deleteAll (deletion by entity_id), which no operation of the model uses any more",
     "that HDF5 frees what became unreachable is not observable through the API and not modelled",
     "uuid4 ids are drawn from an abstract fresh supply",
     "(T) the translator harness/extract/delshape.py accepts only the statement forms listed in its docstring "
     "(anything else: broken tie); isinstance(item, Entity) is read as 'an entity object that is not a Feature', "
     "isinstance(item, self._itemclass) as 'an object of the container's item kind'; the body of H5Group.delete, "
     "H5Group.__delitem__ / __contains__, util/find.py and find_sections / find_sources are compared with templates "
-    "(only the default of delete_if_empty and the depth bound are parameters), so `findIds` gives a meaning to that "
-    "one shape only; h5py's visititems is taken to run the visitor on every group reachable from the file root",
+    "(only the default of delete_if_empty and the depth bound are parameters), so `findKeys` gives a meaning to that "
+    "one shape only; the construction of `targets` in delete_all (the .group / .dataset of every handle passed) and "
+    "the single assignment `self.h5obj = self.group` / `self.dataset` at the end of H5Group / H5DataSet.__init__ are "
+    "compared with templates; h5py's visititems is taken to run the visitor on every group reachable from the file root",
     "the error class of a refused `del container[<entity object>]` is compared as 'refused' only (a Feature whose "
     "data is gone raises RuntimeError from its __str__ inside util.is_uuid, the shared model says TypeError; the "
     "file is unchanged either way)",
-    "data frames and dimension links (Store/C04Ext, Op4): the gone / unreachable theorems hold for every graph and "
-    "hence for Op4 histories (history4_delete); the frame at full strength (history_frame, history_delete_exact) is "
-    "proved for the Op language of Store/Step only — WF preservation by createFrame / dimLink is not proved",
+    "data frames and dimension links (Store/C04Ext, Op4): the gone / unreachable / frame theorems hold for every "
+    "graph and hence for Op4 histories (history4_delete, delete_frame)",
+    "copies in the correspondence histories use the copy model of Store/Copy.lean (C20's subject) within one file "
+    "and the object test of SourceLinkContainer.append (Store/CopyFrames.contAppend20); which error a refused copy "
+    "raises is not compared here",
 ]
 TRUSTED_EXTRA = ["harness/lib/storeimpl.py + storegen.py (path addressing by iteration, HDF5-level dump with h5py)",
                  "harness/lib/walk.py (canonical walk of the public API used by the oracle)"]
@@ -106,24 +108,24 @@ MANIFEST = {
                   "and key form, after a successful delete no container lookup, iteration or role link yields the "
                   "entity (or, for sections / sources, anything in its subtree), everything reachable only through "
                   "it is unreachable from the root, every other link list keeps its remaining entries in order and "
-                  "all attributes; unlinking / clearing a role link removes one link only; the frame holds exactly on "
-                  "the files in which no linked object shares its entity_id (iff theorem), which is an invariant of "
-                  "copy-free histories. Tied to the code (T) by an ast translator that renders the statement lists of "
+                  "all attributes - in particular an id-keeping copy of the deleted entity keeps every link to it "
+                  "(deletion is by HDF5 object, frame_full / delete_frame / delete_exact for every graph); unlinking / "
+                  "clearing a role link removes one link only. Tied to the code (T) by an ast translator that renders the statement lists of "
                   "the deletion code (the __delitem__ variants, the delete_all visitor, H5Group.delete, the container "
                   "constructor table, the role-link deleters, util/find.py) into Generated/DeleteShape.lean, with "
                   "kernel-checked theorems that the meaning of these statement lists is the model, (C) by "
-                  "differential execution of deletion-heavy histories incl. data frames and dimension links "
+                  "differential execution of deletion-heavy histories incl. data frames, dimension links and "
+                  "(mostly id-keeping) copies followed by deletions on either side "
                   "(HDF5-level dump compared after every mutation) and by an implementation-side walk-difference "
                   "oracle.",
-    "level_note": "Partial: the frame theorem needs 'no other object shares the entity_id' (false after "
-                  "keep_copy_id=True copies: known finding, counterexample theorem); subtree completeness assumes a "
+    "level_note": "Partial: subtree completeness assumes a "
                   "finite forest within the model's fuel (decidable form evaluated by the driver for every section / "
-                  "source deletion of the runs); full-strength frame for histories with data frames / dimension links "
-                  "not proved (gone / unreachable are); HDF5 space reclamation is not modelled. Trusted: Lean kernel, "
-                  "standard axioms, the translator's reading of isinstance / visititems, the correspondence harness, "
-                  "h5py/HDF5 link semantics.",
-    "technique": "Lean 4 proof (graph-level lemmas about delete_all for every graph, induction over operation "
-                 "histories for the id-distinctness invariant, refinement of the source's own statement lists - rendered "
+                  "source deletion of the runs; soundness of the collection needs no assumption); HDF5 space "
+                  "reclamation is not modelled. Trusted: Lean kernel, "
+                  "standard axioms, the translator's reading of isinstance / visititems / h5py object equality, the "
+                  "correspondence harness, h5py/HDF5 link semantics.",
+    "technique": "Lean 4 proof (graph-level lemmas about delete_all for every graph, soundness and completeness of "
+                 "the breadth-first subtree collection, refinement of the source's own statement lists - rendered "
                  "by an ast translator - to the hand-written model) with differential correspondence (HDF5-level dump "
                  "after every mutation) and a walk-difference oracle on the implementation",
 }
@@ -135,7 +137,6 @@ def extract(repo):
     return _ex.extract(repo)
 
 
-KNOWN_CLASS = "delete-hits-same-id-copy"
 QUERIES = ("get", "has", "len", "list", "role", "dump", "noop", "reset", "fuel_ok")
 
 
@@ -156,6 +157,13 @@ CONTAINERS4["block"] = storegen.CONTAINERS["block"] + ["data_frames"]
 CONTAINERS4["group"] = storegen.CONTAINERS["group"] + ["data_frames"]
 LINK_CONTS4 = set(storegen.LINK_CONTS) | {("group", "data_frames")}
 INDEXED4 = set(storegen.INDEXED) | {("group", "data_frames")}
+
+
+COPY_NAMES = ["copy", "c2", "k", "a", "z1"]
+
+
+def real_uuid_name(nm):
+    return storegen.real_uuid(nm)
 
 
 def inventory4(impl):
@@ -203,21 +211,25 @@ class DelGen(storegen.Gen):
             return
         if self.n <= self.build_steps:
             r = self.rng.random()
-            if r < 0.38:
+            if r < 0.36:
                 self.create(ents)
-            elif r < 0.50:
+            elif r < 0.47:
                 self.frames_and_dims(ents)
-            elif r < 0.8:
+            elif r < 0.74:
                 self.fan_in(ents)
-            else:
+            elif r < 0.90:
                 self.role_fan(ents)
+            else:
+                self.copies(ents, then_delete=0.15)
             return
         r = self.rng.random()
-        if r < 0.40:
+        if r < 0.36:
             self.delete(ents)
-        elif r < 0.57:
+        elif r < 0.46:
+            self.copies(ents, then_delete=0.6)
+        elif r < 0.60:
             self.unlink(ents)
-        elif r < 0.70:
+        elif r < 0.71:
             self.role_clear(ents)
         elif r < 0.78:
             self.create(ents)
@@ -339,6 +351,59 @@ class DelGen(storegen.Gen):
             self.do(["role", ft.path, "data"])
         self.do(["dump"])
 
+    # -- copies (mostly id-keeping: two objects then carry one entity_id), then deletions on either side -------
+    def copies(self, ents, then_delete):
+        rng = self.rng
+        kind = rng.choice(["data_array"] * 5 + ["tag", "multi_tag", "section", "section", "section", "property",
+                                                "property", "block"])
+        src = self.pick(ents, kind)
+        if src is None:
+            return
+        keep = rng.random() < 0.85
+        name = rng.choice(COPY_NAMES) if rng.random() < 0.8 else ""
+        if kind == "block":
+            if len([e for e in ents if e.kind == "block"]) >= 3 or len(ents) > 60:
+                return
+            out = self.do(["copy_block", src.path, name, keep])
+            dest_owner, cname = [], "data"
+        elif kind in ("data_array", "tag", "multi_tag"):
+            blk = self.pick(ents, "block", block=src.block if rng.random() < 0.7 else None)
+            if blk is None:
+                return
+            cname = {"data_array": "data_arrays", "tag": "tags", "multi_tag": "multi_tags"}[kind]
+            out = self.do(["copy_into", blk.path, kind, src.path, name, keep])
+            dest_owner = blk.path
+        elif kind == "section":
+            children = rng.random() < 0.7
+            dest = self.pick(ents, "section") if rng.random() < 0.5 else None
+            if dest is not None and (dest.path == src.path or dest.path[:len(src.path)] == src.path):
+                dest = None         # not into its own subtree
+            out = self.do(["copy_section", dest.path if dest else None, src.path, children, keep, name])
+            dest_owner, cname = (dest.path, "sections") if dest else ([], "metadata")
+        else:
+            dest = self.pick(ents, "section")
+            if dest is None:
+                return
+            out = self.do(["copy_property", dest.path, src.path, name, keep])
+            dest_owner, cname = dest.path, "properties"
+        self.count("copy %s %s" % (kind, "keeping ids" if keep else "with new ids"))
+        self.do(["list", dest_owner, cname])
+        self.do(["dump"])
+        if "ok" not in out or rng.random() >= then_delete:
+            return
+        # delete on either side right away: the original, or the copy (found by its name in the destination)
+        new_name = name or src.name
+        ents2 = inventory4(self.impl)
+        cp = [e for e in ents2 if e.kind == kind and e.path[:-2] == dest_owner and e.path[-2] == cname
+              and e.name == new_name]
+        orig = [e for e in ents2 if e.kind == kind and e.path == src.path]
+        side = rng.choice(["original", "copy"])
+        pool = orig if side == "original" else cp
+        if not pool or real_uuid_name(new_name):
+            return
+        self.count("delete the %s right after an %s copy" % (side, "id-keeping" if keep else "id-regenerating"))
+        self.delete_ent(pool[0])
+
     def delete(self, ents):
         rng = self.rng
         kinds = [k for k, w in DEL_KIND_WEIGHTS for _ in range(w)]
@@ -349,6 +414,10 @@ class DelGen(storegen.Gen):
                 break
         if e is None:
             return
+        self.delete_ent(e)
+
+    def delete_ent(self, e):
+        rng = self.rng
         owner_path, cname, sel = e.path[:-2], e.path[-2], e.path[-1]
         out = self.do(["list", owner_path, cname])
         items = out.get("ok") or []
@@ -507,6 +576,8 @@ def compare(ops, outs, model):
             return {"ok": canon_dump(o["ok"])}
         if op[0] in ("append", "create_feature") and isinstance(o, dict) and "err" in o:
             return {"err": "refused"}
+        if op[0].startswith("copy_") and isinstance(o, dict) and "err" in o:
+            return {"err": "refused"}       # which error a refused copy raises is C20's subject
         if op[0] == "del" and isinstance(o, dict) and "err" in o and isinstance(op[3], dict) and "o" in op[3]:
             # an entity object of the wrong class as key: refused on both sides; the class of the error is TypeError
             # except for a Feature whose data was deleted (its __str__, called by util.is_uuid, raises RuntimeError)
@@ -559,8 +630,11 @@ def correspondence(ctx):
     return {"evaluations": total, "distinct_nontrivial": len(seen),
             "rule": "corpus scripts, then adaptive histories: ~30 build steps (create in every container kind incl. nested "
                     "sources / sections, one target appended to 2-4 link lists, one section as metadata of 2-4 entities, "
-                    "one array as positions / extents / feature data of up to 3 tags) followed by churn (40% delete an "
-                    "owned entity by name / id / index / negative index / object, 17% unlink, 13% clear metadata / "
+                    "one array as positions / extents / feature data of up to 3 tags, 10% copies within the file - array, "
+                    "tag, multi-tag, section with / without children, property, block; 85% keeping ids, so that two "
+                    "objects carry one entity_id) followed by churn (36% delete an "
+                    "owned entity by name / id / index / negative index / object, 10% copy and, in 60% of these, "
+                    "delete the original or the copy right away, 14% unlink, 11% clear metadata / "
                     "extents / link, rest create / link / malformed); link lists and role links of up to 6 survivors "
                     "and the HDF5-level dump of the whole file compared after every mutation; reopen at random. "
                     "non-trivial = distinct op (canonical JSON) whose result is an error or a non-empty value",
@@ -584,10 +658,11 @@ class Impl4(Impl):
     """store protocol + two implementation-only ops used by the oracle's fixed cases"""
 
     def _run(self, op):
-        if op[0] == "copy_da":          # ["copy_da", block path, source array path, new name, keep_id]
-            blk = self.nav(op[1])
-            blk.create_data_array(op[3], copy_from=self.nav(op[2]), keep_copy_id=bool(op[4]))
-            return None
+        if op[0].startswith("copy_"):   # copies within the file (protocol of Driver/C04.lean)
+            try:
+                return self._copy(op)
+            except NameError:
+                raise nixio.exceptions.DuplicateName("copy")
         if op[0] == "create_df":        # ["create_df", block path, name]
             self.nav(op[1]).create_data_frame(op[2], "t", col_dict={"x": int, "y": float})
             return None
@@ -605,6 +680,42 @@ class Impl4(Impl):
         return super()._run(op)
 
 
+def _impl4_copy(self, op):
+    kind = op[0]
+    if kind == "copy_block":            # ["copy_block", source block path, name, keep_id]
+        _, sp, name, keep = op
+        self.f.create_block(name=name, copy_from=self.nav(sp), keep_copy_id=keep)
+        return None
+    if kind == "copy_into":             # ["copy_into", dest block path, what, source path, name, keep_id]
+        _, dp, what, sp, name, keep = op
+        blk, src = self.nav(dp), self.nav(sp)
+        if not isinstance(blk, nixio.Block):
+            raise AttributeError("not a block")
+        make = {"data_array": "create_data_array", "tag": "create_tag", "multi_tag": "create_multi_tag"}.get(what)
+        if make is None:
+            raise AttributeError(what)
+        getattr(blk, make)(name=name, copy_from=src, keep_copy_id=keep)
+        return None
+    if kind == "copy_section":          # ["copy_section", dest section path | None, source path, children, keep, name]
+        _, dp, sp, children, keep, name = op
+        owner = self.f if dp is None else self.nav(dp)
+        if not hasattr(owner, "copy_section"):
+            raise AttributeError("copy_section")
+        owner.copy_section(self.nav(sp), children=children, keep_id=keep, name=name)
+        return None
+    if kind == "copy_property":         # ["copy_property", dest section path, source property path, name, keep_id]
+        _, dp, sp, name, keep = op
+        sec = self.nav(dp)
+        if not isinstance(sec, nixio.Section):
+            raise AttributeError("not a section")
+        sec.create_property(name=name, copy_from=self.nav(sp), keep_copy_id=keep)
+        return None
+    raise BadOp("unknown copy op")
+
+
+Impl4._copy = _impl4_copy
+
+
 def wpath(impl, spath):
     """walk path (DESIGN appendix A) of the entity at a store path"""
     out = ""
@@ -620,8 +731,101 @@ def wpath(impl, spath):
     return out
 
 
+def _addr(ent):
+    """identity of the HDF5 object behind an entity (file-wide: all objects of a walk live in one file)"""
+    try:
+        h = ent._h5group
+        obj = getattr(h, "group", None)
+        if obj is None:
+            obj = getattr(h, "dataset", None)
+        if obj is None:
+            return None
+        return _h5addr(obj)
+    except Exception:
+        return None
+
+
+def _h5addr(obj):
+    info = h5py.h5o.get_info(obj.id)
+    tok = getattr(info, "token", None)
+    return bytes(tok).hex() if tok is not None else int(info.addr)
+
+
+def addr_records(f):
+    """for every record of `W.walk(f)`, in the same order: the identity of the entity's HDF5 object (`self`) and of
+    the targets of its link lists / role links. Entities are told apart by what they *are*: after an id-keeping copy
+    two of them carry the same id (and, in different parents, the same name)."""
+    out = []
+
+    def lst(o, attr):
+        try:
+            return [_addr(e) for e in getattr(o, attr)]
+        except Exception:
+            return None
+
+    def role(o, attr):
+        try:
+            t = getattr(o, attr)
+        except Exception:
+            return None
+        return None if t is None else _addr(t)
+
+    def kids(o, attr):
+        try:
+            return list(getattr(o, attr))
+        except Exception:
+            return []
+
+    def features(t):
+        for ft in kids(t, "features"):
+            out.append({"self": _addr(ft), "data": role(ft, "data")})
+
+    def sources(o):
+        for s_ in kids(o, "sources"):
+            out.append({"self": _addr(s_), "metadata": role(s_, "metadata")})
+            sources(s_)
+
+    def sections(o, attr):
+        for s_ in kids(o, attr):
+            out.append({"self": _addr(s_), "link": role(s_, "link")})
+            for p_ in kids(s_, "props"):
+                out.append({"self": _addr(p_)})
+            sections(s_, "sections")
+
+    out.append({"self": None})
+    for b in kids(f, "blocks"):
+        out.append({"self": _addr(b), "metadata": role(b, "metadata")})
+        for da in kids(b, "data_arrays"):
+            out.append({"self": _addr(da), "sources": lst(da, "sources"), "metadata": role(da, "metadata")})
+            for _ in kids(da, "dimensions"):
+                out.append({"self": None})
+        for df in kids(b, "data_frames"):
+            out.append({"self": _addr(df), "metadata": role(df, "metadata")})
+        for g in kids(b, "groups"):
+            a = {"self": _addr(g), "metadata": role(g, "metadata")}
+            for fld in ("data_arrays", "data_frames", "tags", "multi_tags", "sources"):
+                a[fld] = lst(g, fld)
+            out.append(a)
+        for t in kids(b, "tags"):
+            out.append({"self": _addr(t), "references": lst(t, "references"), "sources": lst(t, "sources"),
+                        "metadata": role(t, "metadata")})
+            features(t)
+        for mt in kids(b, "multi_tags"):
+            out.append({"self": _addr(mt), "references": lst(mt, "references"), "sources": lst(mt, "sources"),
+                        "metadata": role(mt, "metadata"), "positions": role(mt, "positions"),
+                        "extents": role(mt, "extents")})
+            features(mt)
+        sources(b)
+    sections(f, "sections")
+    return out
+
+
+ADDR = "~a"
+
+
 def the_walk(impl):
-    """canonical walk + the target id of every dimension link (read from the HDF5 link, not through the accessor)"""
+    """canonical walk + the target object of every dimension link (read from the HDF5 link, not through the
+    accessor) + the object identities of `addr_records` under the key `~a` (bookkeeping only, never compared)"""
     recs = W.walk(impl.f)
     byp = {r["path"]: r for r in recs}
     try:
@@ -634,14 +838,20 @@ def the_walk(impl):
                         if d.has_link:
                             grp = d.dimension_link._h5group.group
                             for nm in grp:
-                                v = grp[nm].attrs.get("entity_id")
-                                tid = v.decode() if isinstance(v, bytes) else v
+                                tid = _h5addr(grp[nm])
                     except Exception:
                         tid = None
                     if p in byp:
                         byp[p]["~link_target"] = tid
     except Exception:
         pass
+    try:
+        ann = addr_records(impl.f)
+    except Exception:
+        ann = None
+    if ann is not None and len(ann) == len(recs):
+        for r, a in zip(recs, ann):
+            r[ADDR] = a
     return recs
 
 
@@ -664,11 +874,11 @@ def norm(recs):
 
 
 def same(exp, act):
-    """record equality where an expected `dangling` also accepts None"""
-    if set(exp) != set(act):
+    """record equality where an expected `dangling` also accepts None (the bookkeeping key `~a` is not compared)"""
+    if set(exp) - {ADDR} != set(act) - {ADDR}:
         return False
     for k in exp:
-        if exp[k] == act[k]:
+        if k == ADDR or exp[k] == act[k]:
             continue
         if exp[k] == DANGLING and act[k] in (None, DANGLING):
             continue
@@ -701,6 +911,17 @@ def expect_delete(w0, tpath, extra_roots=()):
     D = closure(w0, roots)
     dpaths = {r["path"] for r in D}
     ids = {r["id"] for r in D if isinstance(r.get("id"), str)}
+    # which links lead to a deleted entity is decided by object identity; by id only if the identities are missing
+    by_obj = all(ADDR in r for r in w0)
+    objs = {r[ADDR]["self"] for r in D if by_obj and r[ADDR].get("self") is not None}
+
+    def hits(r, fld, ref, i=None):
+        if by_obj:
+            a = r[ADDR].get(fld)
+            if i is not None:
+                a = a[i] if isinstance(a, list) and i < len(a) else None
+            return a is not None and a in objs
+        return ref[0] in ids
     owners = [parent_field(p) for p in roots]
     feat_prefix, gone_no = None, 0
     if owners[0][1] == "n_features":
@@ -725,12 +946,12 @@ def expect_delete(w0, tpath, extra_roots=()):
         for fld in LIST_FIELDS:
             v = r.get(fld)
             if isinstance(v, list) and v and isinstance(v[0], list):
-                r[fld] = [x for x in v if x[0] not in ids]
+                r[fld] = [x for i, x in enumerate(v) if not hits(r, fld, x, i)]
         for fld in ROLE_FIELDS:
             v = r.get(fld)
-            if isinstance(v, list) and len(v) == 2 and v[0] in ids:
+            if isinstance(v, list) and len(v) == 2 and hits(r, fld, v):
                 r[fld] = DANGLING
-        if r.get("kind") == "dimension" and r.get("~link_target") in ids:
+        if r.get("kind") == "dimension" and r.get("~link_target") is not None and r.get("~link_target") in objs:
             for fld in DIM_LINK_FIELDS:
                 if fld in r:
                     r[fld] = DANGLING
@@ -749,7 +970,7 @@ def first_diff(exp, act):
         if a is None:
             return {"path": p, "what": "entity disappeared", "observed": None, "required": _brief(e)}
         if not same(e, a):
-            flds = sorted(k for k in set(e) | set(a) if e.get(k) != a.get(k)
+            flds = sorted(k for k in (set(e) | set(a)) - {ADDR} if e.get(k) != a.get(k)
                           and not (e.get(k) == DANGLING and a.get(k) in (None, DANGLING)))
             return {"path": p, "what": "fields differ: %s" % ",".join(flds),
                     "observed": {k: a.get(k) for k in flds[:4]}, "required": {k: e.get(k) for k in flds[:4]}}
@@ -793,8 +1014,15 @@ class Checker:
             if i < 0:
                 i += len(items)
             return (items[i], i) if 0 <= i < len(items) else None
-        if "o" in k or "id" in k:
-            ent = self.impl.nav(k.get("o") or k["id"])
+        if "o" in k:                # the entity object itself: found by what it is (a same-id copy is another one)
+            ent = self.impl.nav(k["o"])
+            a = _addr(ent)
+            for i, it in enumerate(items):
+                if a is not None and _addr(it) == a:
+                    return it, i
+            return None
+        if "id" in k:               # the id as text: the first entry that carries it
+            ent = self.impl.nav(k["id"])
             for i, it in enumerate(items):
                 if it.id == ent.id:
                     return it, i
@@ -895,13 +1123,14 @@ class Checker:
         exp, ids, dpaths = expect_delete(w0, tinfo)
         if walks_equal(exp, w1):
             return out
-        # is the difference exactly "every object sharing an id with a deleted one went too" (id-keeping copy)?
+        # say so when the difference is exactly "every object sharing an id with a deleted one went too" (the defect
+        # repaired by `fix: deleting an entity also deleted every same-id copy file-wide`: a regression)
         twins = [r["path"] for r in w0 if r["path"] not in dpaths and r.get("id") in ids]
         if twins:
             exp2, _, _ = expect_delete(w0, tinfo, extra_roots=twins)
             if walks_equal(exp2, w1):
                 self.fail("deleting %s also deleted the object(s) %s that carry the same entity_id (id-keeping copy)"
-                          % (tinfo, twins), first_diff(exp, w1), KNOWN_CLASS)
+                          % (tinfo, twins), first_diff(exp, w1), "delete")
                 return out
         self.fail("after deleting %s from %s.%s the file is not 'before minus the entity, what it owns and the links "
                   "to those'" % (tinfo, okind, op[2]), first_diff(exp, w1), "delete")
@@ -1011,15 +1240,67 @@ def fixed_cases():
                    ["set_role", ["metadata", "s2"], "link", None], ["set_role", ["metadata", "s2"], "link", None]]))
     cases.append(("extents cleared", topo + [["set_role", B + ["multi_tags", "mt"], "extents", None],
                                              ["set_role", B + ["multi_tags", "mt"], "extents", None]]))
+    cases += copy_cases(topo)
+    return cases
+
+
+def copy_cases(topo):
+    """repaired defect (fix: deleting an entity also deleted every same-id copy file-wide - delete_all matched
+    entity_id; DESIGN D13): after an id-keeping copy, deleting on one side leaves the other side and every link to
+    it alone. A regression is a VIOLATION again."""
+    a = B + ["data_arrays", "a"]
+    a2 = B + ["data_arrays", "a-copy"]
+    sec = ["metadata", "sec"]
+    sub = sec + ["sections", "sub"]
+    cp_arr = topo + [["copy_into", B, "data_array", a, "a-copy", True],
+                     ["create", B, "group", "g3", "t", None], ["create", B, "tag", "tg3", "t", None],
+                     ["append", B + ["groups", "g3"], "data_arrays", {"o": a2}],
+                     ["append", B + ["tags", "tg3"], "references", {"o": a2}],
+                     ["create_feature", B + ["tags", "tg3"], a2, "untagged"],
+                     ["set_role", B + ["multi_tags", "mt2"], "positions", a2]]
+    cp_blk = topo + [["copy_block", B, "blk2", True]]
+    cp_sec = topo + [["copy_section", None, sec, True, True, "sec-copy"],
+                     ["set_role", B2 + ["data_arrays", "a"], "metadata", ["metadata", "sec-copy", "sections", "sub"]],
+                     ["set_role", ["metadata", "sub"], "link", ["metadata", "sec-copy", "sections", "sub",
+                                                                "sections", "leaf"]]]
+    cases = [known_case()]
+    for key, how in (({"s": "a"}, "name"), ({"o": a}, "object"), ({"p": 0}, "index"), ({"id": a}, "id")):
+        cases.append(("id-keeping array copy linked from a group / tag / feature / positions, original deleted by %s"
+                      % how, cp_arr + [["del", B, "data_arrays", key]]))
+    for key, how in (({"s": "a-copy"}, "name"), ({"o": a2}, "object")):
+        cases.append(("id-keeping array copy, the copy deleted by %s" % how, cp_arr + [["del", B, "data_arrays", key]]))
+    cases.append(("id-keeping array copy in another block, original deleted",
+                  topo + [["copy_into", B2, "data_array", a, "a-from-blk", True],
+                          ["append", B2 + ["groups", "g"], "data_arrays", {"o": B2 + ["data_arrays", "a-from-blk"]}],
+                          ["del", B, "data_arrays", {"o": a}]]))
+    cases.append(("id-keeping block copy, an array / a tag / a source subtree / a group of the original deleted",
+                  cp_blk + [["del", B, "data_arrays", {"s": "a"}], ["del", B, "tags", {"s": "tg"}],
+                            ["del", B, "sources", {"s": "src"}], ["del", B, "groups", {"p": 0}]]))
+    cases.append(("id-keeping block copy, entities of the copy deleted, then the copy",
+                  cp_blk + [["del", ["data", "blk2"], "data_arrays", {"o": ["data", "blk2", "data_arrays", "a"]}],
+                            ["del", ["data", "blk2"], "sources", {"s": "src"}],
+                            ["del", ["data", "blk2"], "multi_tags", {"s": "mt"}],
+                            ["del", [], "data", {"s": "blk2"}]]))
+    cases.append(("id-keeping block copy, the original block deleted", cp_blk + [["del", [], "data", {"o": B}]]))
+    cases.append(("id-keeping section copy with metadata links to both subtrees, original subtree deleted",
+                  cp_sec + [["del", [], "metadata", {"s": "sec"}]]))
+    cases.append(("id-keeping section copy, inner section of the original, then the copy deleted",
+                  cp_sec + [["del", sec, "sections", {"o": sub}], ["del", [], "metadata", {"s": "sec-copy"}]]))
+    cases.append(("id-keeping property copy, original then copy deleted",
+                  topo + [["copy_property", sub, sub + ["properties", "p"], "p2", True],
+                          ["del", sub, "properties", {"s": "p"}],
+                          ["copy_property", sec, sub + ["properties", "p2"], "p3", True],
+                          ["del", sec, "properties", {"o": sec + ["properties", "p3"]}]]))
     return cases
 
 
 def known_case():
-    """DESIGN D13: the id-keeping copy disappears together with the original"""
-    return ("id-keeping copy of an array in the same block, original deleted",
+    """the reproducer of the former known finding C04-delete-hits-same-id-copy (DESIGN D13: the id-keeping copy
+    disappeared together with the original), now a fixed regression case"""
+    return ("id-keeping copy of an array in the same block, original deleted (was C04-delete-hits-same-id-copy)",
             [["create_block", "blk", "t"], ["create", B, "data_array", "a", "t", None],
              ["create", B, "group", "g", "t", None],
-             ["copy_da", B, B + ["data_arrays", "a"], "a-copy", True],
+             ["copy_into", B, "data_array", B + ["data_arrays", "a"], "a-copy", True],
              ["del", B, "data_arrays", {"s": "a"}]])
 
 
@@ -1125,7 +1406,6 @@ def oracle(ctx, broken, hints):
         take(ck)
         if ck.incomplete:
             incomplete.append([name] + ck.incomplete)
-    take(check_script(ctx, known_case()[1], "kf"))
     for i, h in enumerate(hints[:8]):
         if isinstance(h, dict) and h.get("prefix"):
             take(check_script(ctx, h["prefix"], "hint%d" % i))
@@ -1134,10 +1414,10 @@ def oracle(ctx, broken, hints):
     for k in range(n):
         rng = random.Random("C04-oracle/%d/%d" % (ctx.seed, k))
         take(check_random(ctx, rng, steps, ctx.budget(30, 40), "r%d" % k))
-        if len([f for f in failures if f.site != KNOWN_CLASS]) > 8:
+        if len(failures) > 8:
             break
     out = _dedup(failures)
-    fresh = [f for f in out if f.site != KNOWN_CLASS]
+    fresh = list(out)
     if fresh:       # minimise the first new failure: it becomes the replay file
         small = shrink(ctx, fresh[0])
         out = [small] + [f for f in out if f is not fresh[0]]
@@ -1146,13 +1426,11 @@ def oracle(ctx, broken, hints):
 
 
 def matches_known(entry, failure):
-    return entry.get("class") == KNOWN_CLASS and failure.site == KNOWN_CLASS
+    # no open finding of this property has a class the oracle reports (C04-delete-hits-same-id-copy is fixed)
+    return False
 
 
 def reproduces(ctx, entry):
-    if entry.get("class") == KNOWN_CLASS:
-        ck = check_script(ctx, known_case()[1], "kf-repro")
-        return any(f.site == KNOWN_CLASS for f in ck.failures)
     return True
 
 
